@@ -433,6 +433,17 @@ pub fn measure_precision(frequency: u64) -> u128 {
         .picos
 }
 
+/// The precision a timer reports through its cached public path: the OS timer
+/// for `None`, the TSC timer at the given frequency otherwise.
+pub fn reported_precision(frequency: Option<u64>) -> u128 {
+    match frequency {
+        None => Timer::Os,
+        Some(f) => Timer::Tsc { frequency: NonZeroU64::new(f).expect("frequency") },
+    }
+    .precision()
+    .picos
+}
+
 // ---------------------------------------------------------------------------
 // Formatting
 // ---------------------------------------------------------------------------
